@@ -171,12 +171,18 @@ class SchedulerMachine(RuleBasedStateMachine):
             self.lst.trash_event(h)
             del self.model[idx]
 
-    @rule()
-    def pickle_roundtrip(self):
+    @rule(keep_original=st.booleans())
+    def pickle_roundtrip(self, keep_original):
         import dill
-        self.trace.append(("pickle",))
+        self.trace.append(("pickle", keep_original))
         blob = dill.dumps((self.heap, self.lst, self.handlers))
-        self.heap, self.lst, self.handlers = dill.loads(blob)
+        if keep_original:
+            # a dump in a run: the pickled copy goes to disk, the run continues with the live objects, which pickling
+            # must not have changed
+            dill.loads(blob)
+            self.flags.add("pickle-continue-original")
+        else:
+            self.heap, self.lst, self.handlers = dill.loads(blob)
         self.flags.add("pickle")
 
     @rule(pick=st.integers(0, 10 ** 6), k=st.integers(0, 3))
@@ -261,7 +267,7 @@ def replay_machine(rec, args):
         elif op == "get":
             m.get()
         elif op == "pickle":
-            m.pickle_roundtrip()
+            m.pickle_roundtrip(bool(step[1]) if len(step) > 1 else False)
         elif op == "burn":
             m.trace.append(tuple(step))
             h = m.handlers[step[1]]
